@@ -121,7 +121,11 @@ func (x *Exec) doCallVals(st *State, fr *Frame, c *ssa.CallCommon, fv Val, argv 
 	if x.native(st, fr, callee, key, argv, rt, pos, k) {
 		return
 	}
-	if fc, ok := x.w.cs.Funcs[funcKey(callee)]; ok {
+	fc, ok := x.w.cs.Funcs[funcKey(callee)]
+	if !ok {
+		fc, ok = x.w.cs.Funcs[key] // generic instantiation: contract of the origin
+	}
+	if ok {
 		fc.Used = true
 		if fc.Inline {
 			x.inlined[shortKey(key)] = true
@@ -272,6 +276,15 @@ func (x *Exec) applyContract(st *State, fc *FuncContract, args []Val, rt types.T
 	default:
 		res = st.freshVal("ret_"+calleeName, rt)
 	}
+	if x.pendingObjInv {
+		x.pendingObjInv = false
+		for _, oi := range x.w.cs.ObjInvs[strings.TrimPrefix(x.absType, "*")] {
+			oenv := &specEnv{w: x.w, pkg: oi.Pkg, vars: map[string]Val{oi.Var: *x.absRecv}, st: st, heap: st.heap}
+			if g, err := oenv.evalBool(oi.E); err == nil {
+				st.assume(g)
+			}
+		}
+	}
 	env2 := &specEnv{w: x.w, pkg: fc.Pkg, vars: vars, st: st, heap: st.heap, old: old}
 	if len(res.Fs) > 0 && res.S == "" {
 		if _, isT := rt.(*types.Tuple); isT {
@@ -321,6 +334,9 @@ func (x *Exec) classOfEntry(st *State, fc *FuncContract, m *ModEntry, env *specE
 		c := m.Class
 		if strings.HasPrefix(c, "$") {
 			return "gg:" + c, "", ""
+		}
+		if strings.HasPrefix(c, "elems:") || strings.HasPrefix(c, "mem:") || strings.HasPrefix(c, "mapP:") || strings.HasPrefix(c, "mapV:") {
+			return c, "", ""
 		}
 		// Type.field
 		i := strings.LastIndex(c, ".")
@@ -413,8 +429,29 @@ func (x *Exec) havocEntry(st *State, fc *FuncContract, m *ModEntry, env *specEnv
 	class, ref, idx := x.classOfEntry(st, fc, m, env)
 	if strings.HasPrefix(class, "gg:") && x.absRecv != nil {
 		if ab, ok := x.w.cs.Abstractions[class[3:]]; ok && ab.Type == x.absType {
-			return // defined by the abstraction over the receiver's state: not a separate location
+			// defined by the abstraction over the receiver's state: havoc the concrete locations it stands for
+			if idx == "" {
+				st.havocAll()
+				return
+			}
+			sub := &specEnv{w: x.w, pkg: ab.Pkg, vars: map[string]Val{ab.Var: *x.absRecv, ab.Key: {S: idx, Sort: keySortOfArray(x.w.classes[class])}}, st: st, heap: st.heap}
+			afc := &FuncContract{Key: "abstraction " + ab.Name, Pkg: ab.Pkg}
+			for _, hm := range ab.Havocs {
+				c2, r2, i2 := x.classOfEntry(st, afc, hm, sub)
+				x.havocAt(st, c2, r2, i2)
+			}
+			// the callee reaches these locations only through entry methods of the receiver, which
+			// preserve its object invariants
+			x.pendingObjInv = true
+			return
 		}
+	}
+	x.havocAt(st, class, ref, idx)
+}
+
+func (x *Exec) havocAt(st *State, class, ref, idx string) {
+	if _, ok := x.w.classes[class]; !ok {
+		return // class never materialised in this run: nothing known about it that could be lost
 	}
 	srt := x.w.classes[class]
 	switch {
@@ -608,7 +645,13 @@ func (x *Exec) doBuiltin(st *State, name string, argv []Val, c *ssa.CallCommon, 
 			return Val{T: rt, S: ns, Sort: "Slice"}
 		}
 		if sortOf(et) == "" {
-			x.reject("append on slice of composite elements")
+			// composite elements: a fresh backing array whose contents are left unconstrained (over-approximation)
+			r := st.newRef("arr")
+			nl := "(+ (slen " + s.S + ") (slen " + t.S + "))"
+			cp := st.fresh("cap", "Int")
+			st.assume("(>= " + cp + " " + nl + ")")
+			ns := st.define("sl", "Slice", "(mk-slice "+r+" 0 "+nl+" "+cp+")")
+			return Val{T: rt, S: ns, Sort: "Slice"}
 		}
 		cls := st.elemClass(et)
 		r := st.newRef("arr")
